@@ -6,7 +6,9 @@ handed to emit.file is recorded by a pass-through hook and compared, `_location`
 included, with the tree in the model's write event; the way the call ended (exception kind) is compared too.
 External tables the model needs (ast.unparse of annotations, ast.parse of wrapped text, the evaluated values
 of --input-eval) are computed here, independently of doctrans.
-Frame: the input file's bytes and the two parameter lists must be unchanged by the call."""
+Frame: the input file's bytes and the two parameter lists must be unchanged by the call.
+A case may carry a seventh argument `same_file`: input and output are then ONE file (two locations of one module);
+the model is asked the same question as for two files with equal text (the code parses the file twice)."""
 import ast
 import copy
 import inspect
@@ -30,6 +32,9 @@ EVAL_INPUTS = [
     "import os\nT = ('mnist', 'cifar10')\nB = True\nZ = None\nC = ''\nW = 'x'\nNN = ((1, 2), 3)\n",
     "raise ValueError('boom')\nK = (1, 2)\n",
     "K = [][0]\n",
+    # members that compare (and hash) equal without being the same value, repeated members
+    "FL = (True, 1, 2)\nMIX = (0, 1, False, True, 'off', 'on')\nNUM = [1, 1.0, 2]\nZ0 = (0, False)\nDUP = ('a', 'b', 'a')\n"
+    "ONE = (1.0,)\nNEG = (-1, -1.0, 0.0, 0)\nSS = ('1', 1, 'True', True, None)\n",
 ]
 
 SP_INPUTS = [
@@ -159,6 +164,28 @@ def gen(rng, n, tier="quick"):
             return rng.choice(SPECIAL)
         return GM.gen_module(rng, depth=rng.choice([1, 2, 2, 3]), max_items=rng.choice([3, 6]))
 
+    def choose_pairs(itree, otree, k):
+        ilocs = _leaf_locs(itree, containers=rng.random() < 0.1) or ["a"]
+        olocs = _leaf_locs(otree, containers=rng.random() < 0.05) or ["g.x"]
+        ips, ops = [], []
+        iargs, istmts = _leaf_locs(itree, kind="arg"), _leaf_locs(itree, kind="stmt")
+        oargs, ostmts = _leaf_locs(otree, kind="arg"), _leaf_locs(otree, kind="stmt")
+        for _ in range(k):
+            if rng.random() < 0.85 and (oargs or ostmts) and (istmts or (iargs and oargs)):
+                # kind-compatible pair: an argument can take an argument or an assignment, an assignment only an assignment
+                if oargs and (not ostmts or not istmts or rng.random() < 0.6):
+                    op, ip = rng.choice(oargs), rng.choice(iargs + istmts)
+                else:
+                    op, ip = rng.choice(ostmts), rng.choice(istmts)
+            else:
+                ip = rng.choice(ilocs) if rng.random() < 0.8 else rng.choice(["nope", "C.nope", "f.a.b", ""])
+                op = rng.choice(olocs) if rng.random() < 0.8 else rng.choice(["nope", "g.nope", "D", ""])
+            if ips and rng.random() < 0.2:
+                ip = rng.choice(ips)                      # the same input parameter again (aliasing)
+            ips.append(ip)
+            ops.append(op)
+        return ips, ops
+
     while len(cases) < n:
         r = rng.random()
         if r < 0.05:
@@ -180,33 +207,33 @@ def gen(rng, n, tier="quick"):
             k = rng.choice([1, 1, 2])
             ips = [rng.choice(["K", "N", "S", "L", "E", "Q", "D", "M", "T", "B", "Z", "C", "W", "NN", "F", "nope", "K.x"])
                    for _ in range(k)]
+            if rng.random() < 0.5:
+                # names the chosen input really binds (sequences mostly), and statement positions to put them at
+                own = [t.id for n in ast.parse(isrc).body if isinstance(n, ast.Assign) for t in n.targets
+                       if isinstance(t, ast.Name)]
+                if own:
+                    ips = [rng.choice(own) for _ in range(k)]
             ops = [rng.choice(olocs) for _ in range(k)]
+            ostmts = _leaf_locs(ast.parse(osrc), kind="stmt")
+            if ostmts and rng.random() < 0.5:
+                ops = [rng.choice(ostmts) for _ in range(k)]
             wrap = rng.choice(WRAPS[:3]) if rng.random() < 0.4 else None
             add("sync_properties", [True, isrc, ips, osrc, ops, wrap], "eval", "pairs-%d" % k,
                 "wrap" if wrap else "nowrap")
+        elif r < 0.36:
+            # one file, two locations of it (input file == output file)
+            src = module(SP_INPUTS + SP_OUTPUTS)
+            tree = ast.parse(src)
+            k = rng.choice([1, 1, 1, 2])
+            ips, ops = choose_pairs(tree, tree, k)
+            wrap = rng.choice(WRAPS[:3]) if rng.random() < 0.6 else None
+            add("sync_properties", [False, src, ips, src, ops, wrap, True], "noeval", "pairs-%d" % k,
+                "wrap" if wrap else "nowrap", "same-file")
         else:
             isrc, osrc = module(SP_INPUTS), module(SP_OUTPUTS)
             itree, otree = ast.parse(isrc), ast.parse(osrc)
-            ilocs = _leaf_locs(itree, containers=rng.random() < 0.1) or ["a"]
-            olocs = _leaf_locs(otree, containers=rng.random() < 0.05) or ["g.x"]
             k = rng.choice([1, 1, 2, 2, 3])
-            ips, ops = [], []
-            iargs, istmts = _leaf_locs(itree, kind="arg"), _leaf_locs(itree, kind="stmt")
-            oargs, ostmts = _leaf_locs(otree, kind="arg"), _leaf_locs(otree, kind="stmt")
-            for _ in range(k):
-                if rng.random() < 0.85 and (oargs or ostmts) and (istmts or (iargs and oargs)):
-                    # kind-compatible pair: an argument can take an argument or an assignment, an assignment only an assignment
-                    if oargs and (not ostmts or not istmts or rng.random() < 0.6):
-                        op, ip = rng.choice(oargs), rng.choice(iargs + istmts)
-                    else:
-                        op, ip = rng.choice(ostmts), rng.choice(istmts)
-                else:
-                    ip = rng.choice(ilocs) if rng.random() < 0.8 else rng.choice(["nope", "C.nope", "f.a.b", ""])
-                    op = rng.choice(olocs) if rng.random() < 0.8 else rng.choice(["nope", "g.nope", "D", ""])
-                if ips and rng.random() < 0.2:
-                    ip = rng.choice(ips)                      # the same input parameter again (aliasing)
-                ips.append(ip)
-                ops.append(op)
+            ips, ops = choose_pairs(itree, otree, k)
             if rng.random() < 0.03:
                 ops = ops[:-1]
             wrap = None
@@ -220,7 +247,7 @@ def gen(rng, n, tier="quick"):
 # ------------------------------------------------------------------ wire
 def wire_args(a):
     """the eight wire arguments of a sync_properties call: env tables, eval flag, modules, parameters, template, values"""
-    ev, isrc, ips, osrc, ops, wrap = a
+    ev, isrc, ips, osrc, ops, wrap = a[:6]
     itree = ast.parse(isrc)
     evs, lits = [], []
     for ip in ips:
@@ -252,8 +279,9 @@ def request(case):
     raise KeyError(fn)
 
 
-def run_sync_properties(ev, isrc, ips, osrc, ops, wrap):
-    """the real call on temporary files; returns (wire result, input bytes unchanged?, output text after)"""
+def run_sync_properties(ev, isrc, ips, osrc, ops, wrap, same_file=False):
+    """the real call on temporary files; returns (wire result, input bytes unchanged?, output text after).
+    same_file: input and output are one file holding `osrc` (the input bytes are then of course not expected to stay)"""
     m = impl()
     d = tempfile.mkdtemp(prefix="verif_syncprops_")
     captured = []
@@ -265,6 +293,9 @@ def run_sync_properties(ev, isrc, ips, osrc, ops, wrap):
 
     try:
         ipath, opath = os.path.join(d, "input_file.py"), os.path.join(d, "output_file.py")
+        if same_file:
+            assert isrc == osrc
+            ipath = opath
         with open(ipath, "wb") as f:
             f.write(isrc.encode("utf-8"))
         with open(opath, "wb") as f:
@@ -279,7 +310,7 @@ def run_sync_properties(ev, isrc, ips, osrc, ops, wrap):
         finally:
             m.emit.file = real_file
         with open(ipath, "rb") as f:
-            same_in = f.read() == isrc.encode("utf-8")
+            same_in = same_file or f.read() == isrc.encode("utf-8")
         with open(opath, "rb") as f:
             out_after = f.read().decode("utf-8")
         frame = same_in and ips == ips0 and ops == ops0
